@@ -147,7 +147,7 @@ fn sweep(lo: u64, hi: u64, pairs: &[(f32, f32)], shuffle_lens: &[usize]) -> Repo
 fn band_checks(seed: u64, grid: usize, step: usize, rep: &mut Report) {
     // shuffle with more lengths
     let mut buf = Vec::new();
-    for len in [1usize, 2, 3, 4, 5, 6, 7, 8, 10, 100, 1000] {
+    for len in [0usize, 1, 2, 3, 4, 5, 6, 7, 8, 10, 100, 1000] {
         rep.transitions += 1;
         let r = guard(|| check_shuffle(seed, len, &mut buf)).unwrap_or_else(|e| {
             Some(("C18 shuffle panics".into(), format!("create({}).shuffle(vector of length {}): {}", seed, len, crate::util::first_line(&e))))
@@ -239,7 +239,7 @@ fn check_special(seed: u64, rep: &mut Report) {
     }
     // shuffle from this seed
     let mut buf = Vec::new();
-    for len in [1usize, 2, 5, 17] {
+    for len in [0usize, 1, 2, 5, 17] {
         rep.transitions += 1;
         let r = guard(|| check_shuffle(seed, len, &mut buf)).unwrap_or_else(|e| {
             Some((
